@@ -19,10 +19,19 @@ def hist_jobs(prefix, seed, shards, histories, steps, tokens="spl", extra=None):
     return jobs
 
 
-def mc(name, tier, workers_hint=None):
-    """toy-scale instances of spec/Whirlpool.tla (see the MC_*.cfg files)"""
+def mc(name, tier, module="MC_Whirlpool"):
+    """toy-scale instances (see the MC_*.cfg files)"""
     cfg = f"{name}_q.cfg" if tier == "quick" else f"{name}.cfg"
-    return {"name": name, "module": "MC_Whirlpool", "cfg": cfg, "timeout": 7200}
+    return {"name": name, "module": module, "cfg": cfg, "timeout": 7200}
+
+
+def fn_jobs(what, tier, seed, n_q, n_t, shards_q=4, shards_t=16, extra=None):
+    jobs = []
+    shards, n = (shards_q, n_q) if tier == "quick" else (shards_t, n_t)
+    for s in range(shards):
+        args = ["fn", "--what", what, "--n", str(n), "--seed", str(seed * 1000 + s)] + (extra or [])
+        jobs.append({"name": f"fn_{what}_{s}", "args": args, "module": "WpFn"})
+    return jobs
 
 
 COV = {"name": "MC_Whirlpool_cov", "module": "MC_Whirlpool", "cfg": "MC_Whirlpool_cov.cfg", "timeout": 600, "workers": 1}
@@ -65,4 +74,48 @@ def C08(tier, seed):
                      explanation="user/vault deltas of every increase/decrease equal the exact TokenDeltas rounded up/down")
 
 
-PLANS = {"C01": C01, "C03": C03, "C05": C05, "C06": C06, "C08": C08}
+def C02(tier, seed):
+    p = hist_plan(["C02"], tier, seed, shards_q=3, shards_t=8, must={"swap": 30},
+                  explanation="StepOK(x, Step(x)) for every input tuple of the toy domain (MC_SwapStep, exhaustive); StepOK on every successful "
+                              "compute_swap call of a boundary grid (incl. budgets equal to / one off the amount that reaches the target) + random inputs, "
+                              "and on every swap step recorded in random histories")
+    p["models"] = [mc("MC_SwapStep", tier, "MC_SwapStep")]
+    p["drivers"] += fn_jobs("steps", tier, seed, 15000, 200000)
+    return p
+
+
+def C09(tier, seed):
+    if tier == "quick":
+        jobs = fn_jobs("ticks", tier, seed, 20000, 0, shards_q=2, extra=["--stride", "16"])
+        ex = False
+    else:
+        # complete enumeration of the tick range in 16 contiguous shards (+ random interior price queries)
+        jobs = []
+        lo, hi = -443636, 443636
+        step = (hi - lo) // 16 + 1
+        for s in range(16):
+            a, b = lo + s * step, min(hi, lo + (s + 1) * step)   # shards overlap by one tick so every consecutive pair is checked
+            jobs.append({"name": f"fn_ticks_{s}", "args": ["fn", "--what", "ticks", "--stride", "1", "--lo", str(a), "--hi", str(b), "--n", "100000", "--seed", str(seed * 1000 + s)], "module": "WpFn"})
+        ex = True
+    return {"active": ["C09"], "drivers": jobs, "models": [], "exhaustive": ex,
+            "explanation": "TickMathOK over the recorded tick->price table (strictly increasing, endpoints, ratio within 2^-32 of sqrt(1.0001)) and the inverse contract "
+                           "at every recorded tick price, one unit either side, MIN/MAX and random interior prices; thorough tier enumerates every tick"}
+
+
+_C06, _C08 = C06, C08
+
+
+def C06(tier, seed):
+    p = _C06(tier, seed)
+    p["drivers"] += fn_jobs("steps", tier, seed, 8000, 100000, shards_q=2, shards_t=8)
+    return p
+
+
+def C08(tier, seed):
+    p = _C08(tier, seed)
+    p["drivers"] += fn_jobs("deltas", tier, seed, 10000, 150000, shards_q=2, shards_t=8)
+    p["models"] = [mc("MC_TokenDeltas", tier, "MC_TokenDeltas")] + p["models"]
+    return p
+
+
+PLANS = {"C01": C01, "C02": C02, "C03": C03, "C05": C05, "C06": C06, "C08": C08, "C09": C09}
